@@ -547,7 +547,12 @@ impl<'a> Gen<'a> {
         if self.rng.chance(1, 8) {
             if let Some(cell) = body.first_mut().and_then(|r| r.first_mut()) {
                 let w = self.words.next(self.rng, false);
-                cell.push(Inl::W(format!("C:\\{}\\", w)));
+                if self.rng.chance(1, 2) {
+                    cell.push(Inl::W(format!("C:\\{}\\", w)));
+                } else {
+                    // ... or in two of them (written escaped): "\\|" never ends a cell, however many backslashes come before it
+                    cell.push(Inl::Entity(format!("{}\\\\\\\\", w), format!("{}\\\\", w)));
+                }
             }
         }
         Blk::Table(aligns, head, body)
